@@ -428,7 +428,9 @@ def check(repo, rep, tier):
     rep.floor('Unification(...) client sites', n, 16)
     r_scan(repo, rep)
     r_scan_deep(repo, rep)
-    from .c13 import r_xor
+    from .c13 import r_xor, r_functor_builders
     r_xor(repo.module('depccg/cat.py'), rep, 'R6.3')
+    # a binding that is a functor is handed out rebuilt through x.functor(..): with x's own slash, whichever it is
+    r_functor_builders(repo.module('depccg/cat.py'), rep, 'R6.3')
     r_feature_loop(repo, rep)
     r_feature_relations(repo, rep)
